@@ -259,13 +259,17 @@ pub fn run_c14(ctx: &Ctx) -> Outcome {
         "Sequences of generate / generate_from_arbitrary / reset (length 1..6) followed by drop, all protocols and configurations incl. unsafe. \
          Oracle: per-thread live-bytes counter of a counting #[global_allocator] in the harness; after one warm-up generation per thread, \
          live(before Generator::new) == live(after drop), exact equality. Non-trivial = an output contains a DUP byte followed later by an \
-         APPEND/SETITEM/BUILD/APPENDS/SETITEMS/ADDITEMS byte (the shape in which aliasing could form a cycle).",
+         APPEND/SETITEM/BUILD/APPENDS/SETITEMS/ADDITEMS byte (the shape in which aliasing could form a cycle). Plus, for the one long-running \
+         process the tool ships (CLI batch mode): the peak resident set (/usr/bin/time %M) of a 300-pickle and of a 6 000-pickle (24 000 thorough) \
+         batch of 1500..2500-opcode pickles, two protocols and worker counts; oracle: the difference stays below half of the bytes the larger \
+         batch wrote (>= 32 MiB), i.e. the process does not keep what it has generated.",
     );
     let mut p = Profile::full();
     p.size = SizeMode::Mixed;
     let r = run_prop(ctx, 1, ctx.n(60_000, 2_000_000), || seq_strategy(&p, 6), |c: &SeqCase, st: &mut Stats| check_c14(ctx, c, st));
     out.absorb(r);
     out.assumptions = vec!["allocations are counted per thread; a generator lives and dies on one thread".into()];
+    crate::props::frontends::run_c14_cli(ctx, &mut out);
     out
 }
 
